@@ -306,6 +306,10 @@ theorem forFinish_stmt (lb ub st iv us en wb ρ) :
     eraseS (forFinish lb ub st iv us en wb ρ).stmt = some (.forS lb ub st iv (erase wb.blk)) := by
   simp [forFinish, eraseS, erase_appEmpties]
 
+theorem forFinishP_stmt (lb ub st iv us en wb ρ car) :
+    eraseS (forFinishP lb ub st iv us en wb ρ car).stmt = some (.forS lb ub st iv (erase wb.blk)) := by
+  simp [forFinishP, eraseS, erase_appEmpties]
+
 mutual
 theorem weaveS_erase : (s : PStmt) → ∀ σ cur n ρ, eraseS (weaveS s σ cur n ρ).stmt = some (erasePS s)
   | .setup _ _ _ _, _, _, _, _ => by simp [weaveS, eraseS, erasePS]
@@ -316,11 +320,16 @@ theorem weaveS_erase : (s : PStmt) → ∀ σ cur n ρ, eraseS (weaveS s σ cur 
   | .ifS c t e, σ, cur, n, ρ => by
       simp only [weaveS, ifFinish_stmt, erasePS]
       rw [weaveB_erase t, weaveB_erase e]
-  | .forS lb ub st iv body, σ, cur, n, ρ => by
+  | .forS lb ub st iv body [], σ, cur, n, ρ => by
       simp only [weaveS]
       split
       · simp only [eraseS, erasePS]; rw [weaveB_erase body]
       · simp only [forFinish_stmt, erasePS]; rw [weaveB_erase body]
+  | .forS lb ub st iv body (c :: cs), σ, cur, n, ρ => by
+      simp only [weaveS]
+      split
+      · simp only [eraseS, erasePS]; rw [weaveB_erase body]
+      · simp only [forFinishP_stmt, erasePS]; rw [weaveB_erase body]
 theorem weaveB_erase : (b : PBlock) → ∀ σ cur n ρ, erase (weaveB b σ cur n ρ).blk = eraseP b
   | .nil, _, _, _, _ => by simp [weaveB, erase, eraseP]
   | .cons s r, σ, cur, n, ρ => by
